@@ -36,11 +36,15 @@ struct HAlloc {
 template <class T>
 using hvec = std::vector<T, HAlloc<T>>;
 
-inline uint64_t hmix(uint64_t a, uint64_t b) {
-  uint64_t z = a ^ (b + 0x9e3779b97f4a7c15ull + (a << 6) + (a >> 2));
+inline uint64_t hmix1(uint64_t z) {
+  z += 0x9e3779b97f4a7c15ull;
   z = (z ^ (z >> 30)) * 0xbf58476d1ce4e5b9ull;
   z = (z ^ (z >> 27)) * 0x94d049bb133111ebull;
   return z ^ (z >> 31);
+}
+// order-dependent combination of two 64-bit values (both are fully mixed before they are combined)
+inline uint64_t hmix(uint64_t a, uint64_t b) {
+  return hmix1(hmix1(a) + 0x632be59bd9b4e019ull * hmix1(b ^ 0xd6e8feb86659fd93ull));
 }
 
 // ---- threads: run a callable as a logical thread -----------------------------------------------------
